@@ -139,10 +139,10 @@ def run(ctx, props, mine, known, names, what):
     own = [m for m in mon if m[2] in mine or m[2] in known]
     cov.update({
         "evaluations": rep["steps"], "distinct_nontrivial": rep["distinct_cases"],
-        "rule": "whole-application runs (real app.App through ABCI, Replica): replays of the recorded findings + 2 witnesses + the 4 directed "
+        "rule": "whole-application runs (real app.App through ABCI, Replica): replays of the recorded findings (all fixed: expected to HOLD) + 5 witnesses + the 5 directed "
                 "scenarios + adversarial-amount histories (19 value-moving kinds x amounts {-2^64,-1,0,1,base-1,base,base+1,2^63-1,2^63,2^64,"
                 "2^64+1,10^40} relative to the observed source record x currencies {OLT,ETH,unregistered,empty}; every address field replaced by "
-                "other accounts, signed by the rightful signers / the attacker / the named account) + seeded random histories over ~30 kinds "
+                "other accounts, signed by the rightful signers / the attacker / the named account) + seeded random histories over ~35 kinds incl. OLVM "
                 "(genHistory); evaluations = ABCI steps (BeginBlock, DeliverTx, EndBlock) whose decoded ledger change was judged by the monitors; "
                 "distinct = distinct histories",
         "traces_validated_against_impl": rep["cases"], "blocks": rep["blocks"], "txs": rep["txs"], "tx_ok": rep["tx_ok"], "tx_fail": rep["tx_fail"],
